@@ -935,9 +935,17 @@ class SSeq:
                     raise Unsupported(f"{which}() of multi-char mapping")
                 out.append(bvv(ord(m), WS))
                 continue
-            bad = [e == c for c in multi] + [z3.UGT(e, maxcp)]
-            if ctx().decide(z3.Or(*bad)):
+            if ctx().decide(z3.UGT(e, maxcp)):
                 raise Unsupported(f"{which}() outside modelled code point range")
+            hit = None
+            for c in multi:
+                # a mapping to several characters (e.g. 'ß'.upper() == 'SS'): fork on the value
+                if ctx().decide(e == c):
+                    hit = c
+                    break
+            if hit is not None:
+                out.extend(bvv(ord(ch), WS) for ch in getattr(chr(hit), which)())
+                continue
             r = e
             for lo, hi, d in runs:
                 r = z3.If(z3.And(z3.UGE(e, lo), z3.ULE(e, hi)), e + d, r)
